@@ -19,7 +19,9 @@ macro_rules! dispatch {
             "C12" => $f::<props::c12::P>($($a),*),
             "C13" => $f::<props::c13::P>($($a),*),
             "C14" => $f::<props::c14::P>($($a),*),
+            "C15" => $f::<props::c15::P>($($a),*),
             "C16" => $f::<props::c16::P>($($a),*),
+            "C17" => $f::<props::c17::P>($($a),*),
             "C18" => $f::<props::c18::P>($($a),*),
             "C19" => $f::<props::c19::P>($($a),*),
             other => {
